@@ -163,7 +163,7 @@ func itemWitness(it *pgen.TItem) map[string]any {
 // topIsCustom reports a top-level value type whose own Equal/Compare method is custom (the
 // property defines no structural answer there).
 func topIsCustom(t *pgen.Type) bool {
-	return t.K == pgen.KNamed && (t.EqualMethod == "custom" || t.CompareMethod == "custom")
+	return t.K == pgen.KNamed && (strings.HasPrefix(t.EqualMethod, "custom") || strings.HasPrefix(t.CompareMethod, "custom"))
 }
 
 // buildTypeBatchesMulti is buildTypeBatches with several items (op sets) per shape.
@@ -205,5 +205,6 @@ func commonExtras(s *pgen.Std) []*pgen.Type {
 		// hand-written Compare/Equal behind a top-level pointer (structural there); arrays of slices as map
 		// elements (a reused scratch array would alias them)
 		s.SU, pgen.Ptr(s.SU), pgen.Slice(s.SU), s.XT, pgen.Ptr(s.XT), pgen.Slice(s.XT), pgen.Ptr(s.SCi),
+		pgen.Ptr(s.SCv), pgen.Slice(s.SCv), pgen.Slice(pgen.Ptr(s.SCv)), pgen.Map(pgen.B("string"), s.SCv), pgen.Slice(s.SCi), pgen.Slice(pgen.Ptr(s.SCi)),
 		pgen.Map(pgen.B("string"), pgen.Array(2, pgen.Slice(pgen.B("int")))), pgen.Map(pgen.B("float64"), pgen.Ptr(pgen.B("int"))), pgen.Map(pgen.B("complex128"), pgen.B("string"))}
 }
